@@ -493,6 +493,9 @@ enum UKind {
     Sizes { lo: usize, hi: usize },
     /// one record of more than 10 MiB (a part of n points): alone, last of two, followed by a null record
     Huge { n: usize },
+    /// sizes crossed with values and structure: a special measure / Z inside a long part; two long parts of every
+    /// ordered pair of lengths
+    Cross,
 }
 
 fn run_case(case: &Case, ctx: &mut Ctx) {
@@ -589,6 +592,57 @@ fn enumerate(u: &Unit, tier: Tier, ctx: &mut Ctx, tick: &dyn Fn()) {
                     run_case(&Case { file: file_of(ty, vec![body.clone(), MBody::Null], &[1, 2], vec![0xAB; 13]), ndev: 0 }, ctx);
                 }
                 tick();
+            }
+        }
+        UKind::Cross => {
+            let pts = |start: usize, n: usize| -> Vec<P4> { (0..n).map(|i| { let k = (start + i) as f64; [k * 0.5, 3.0 - k * 0.25, 100.0 + k, 1000.0 + k * 0.125] }).collect() };
+            let fam = ty.family();
+            let multi = |lens: &[usize]| -> MShape {
+                if fam == Family::Multipoint {
+                    return MShape { ty, parts: vec![MPart { kind: 0, pts: pts(0, lens.iter().sum()) }] };
+                }
+                let mut k = 0;
+                let parts = lens.iter().enumerate().map(|(i, l)| {
+                    let kind = if fam == Family::Multipatch { [2u8, 0, 3][i % 3] } else { 0 };
+                    let p = MPart { kind, pts: pts(k, *l) };
+                    k += l;
+                    p
+                }).collect();
+                MShape { ty, parts }
+            };
+            let red = reduced_variants(ty);
+            let mut emit = |s: MShape, with_m: bool, nd: u8, ctx: &mut Ctx| {
+                let bbox = codec::true_bbox(&s);
+                let body = MBody::Shape { shape: s, bbox, with_m };
+                run_case(&Case { file: file_of(ty, vec![body.clone(), red[1 % red.len()].clone()], &[1, 2], vec![0xAB; 13]), ndev: nd }, ctx);
+                tick();
+            };
+            let dims = ty.dims();
+            for n in [300usize, 1030, 2100, 9000, 20000] {
+                let base = multi(&[3, n, 2]);
+                let (pi, off) = if fam == Family::Multipoint { (0, 3) } else { (1, 0) };
+                for pos in [0usize, n / 2, n - 1] {
+                    for (d, vals) in [(3usize, vec![f64::NAN, f64::NEG_INFINITY, -2e39, NO_DATA]), (2usize, vec![f64::NAN])] {
+                        if !dims[d] {
+                            continue;
+                        }
+                        for v in vals {
+                            let mut s = base.clone();
+                            s.parts[pi].pts[off + pos][d] = v;
+                            emit(s, true, 1, ctx);
+                        }
+                    }
+                }
+            }
+            if fam != Family::Multipoint {
+                let ls = [260usize, 300, 1030, 16390];
+                for a in ls {
+                    for b in ls {
+                        for with_m in m_variants(ty) {
+                            emit(multi(&[a, b, 4]), with_m, 0, ctx);
+                        }
+                    }
+                }
             }
         }
         UKind::Huge { n } => {
@@ -762,6 +816,9 @@ pub fn check(tier: Tier) -> i32 {
                 units.push(Unit { ty, kind: UKind::Huge { n: 1_400_001 } });
             }
         }
+        if matches!(ty, Ty::MultipointM | Ty::PolylineZ | Ty::PolygonM | Ty::Multipatch) || (tier == Tier::Thorough && !matches!(ty.family(), Family::Point | Family::Null)) {
+            units.push(Unit { ty, kind: UKind::Cross });
+        }
         for idx in 1..reduced_variants(ty).len() {
             units.push(Unit { ty, kind: UKind::Devs { idx, dmax: 1 } });
             if tier == Tier::Thorough && idx <= 2 {
@@ -779,7 +836,7 @@ pub fn check(tier: Tier) -> i32 {
             tier,
             level: "model_checking",
             engine: "E2 enumerator over files produced by the independent RefCodec encoder, decoded by the real ShapeReader (read, iter_shapes, read_as)",
-            rule: "14 file types x {n=0; n=1 over every record variant (part structures with 0-3 parts of 0-3 vertices incl. empty first parts and zero parts, M block present/absent, PointZ 24/32 bytes, 4 stored-box variants, null record) x 5 numbering variants x 4 trailing variants; n=2,3 all ordered tuples over 6 representative variants x numbering x trailing; deviation sets of size <= d over every coordinate and stored-box field from the full float alphabet (NaNs included); EVERY part length from 2 to the size bound for one type per family (with and without the M block); every file of >= 2 records again through sources returning at most 1 resp. 5 bytes per read, and (files of 3 records) with the iterator driven through 14 programs of std adaptors (nth, skip, step_by, last, count) fresh and after one next(); records of more than 10 MiB (a part of 700001 points; thorough also 1400001 and three more types) alone, last of two, and followed by a null record}; distinct = hash of the file bytes; non-trivial = foreign layout feature, deviation or >= 2 records",
+            rule: "14 file types x {n=0; n=1 over every record variant (part structures with 0-3 parts of 0-3 vertices incl. empty first parts and zero parts, M block present/absent, PointZ 24/32 bytes, 4 stored-box variants, null record) x 5 numbering variants x 4 trailing variants; n=2,3 all ordered tuples over 6 representative variants x numbering x trailing; deviation sets of size <= d over every coordinate and stored-box field from the full float alphabet (NaNs included); EVERY part length from 2 to the size bound for one type per family (with and without the M block); every file of >= 2 records again through sources returning at most 1 resp. 5 bytes per read, and (files of 3 records) with the iterator driven through 14 programs of std adaptors (nth, skip, step_by, last, count) fresh and after one next(); a special measure / Z at the start, middle, end of a part of 300..20000 points, two long parts of every ordered pair over {260, 300, 1030, 16390} with and without the M block; records of more than 10 MiB (a part of 700001 points; thorough also 1400001 and three more types) alone, last of two, and followed by a null record}; distinct = hash of the file bytes; non-trivial = foreign layout feature, deviation or >= 2 records",
             bounds: json!({"max_parts": 3, "max_part_len": 3, "max_records": 4, "deviation_bound": tier.pick(1, 2), "alphabet": f_m().len()}),
             exhaustive: true,
             assumptions: vec!["ring roles and the M range of a box whose M block is absent are not in the statement and are not compared".into()],
